@@ -188,10 +188,18 @@ func VP_C06_Update() {
 	changed, err := idx.Update(g, sha.SHA1(h), []byte(p))
 	zzvp.Assert(err == nil, "Update succeeds")
 	zzvp.Assert(vpSorted(idx), "after Update the entries are strictly ascending, duplicate-free and counted")
-	// specified content
-	wantLen := len(old)
-	if was < 0 {
-		wantLen++
+	// specified content: the named path gets the new id; an entry that the new path replaces in kind (a tracked file
+	// that is a directory of the new path, or tracked paths beneath the new path) is dropped; every other entry stays
+	// (re-adding an entry that is already there with the same id changes nothing at all)
+	same := was >= 0 && string(old[was].Hash) == string(h)
+	replaced := func(o *Entry) bool {
+		return !same && (vpHasDirPrefix(string(o.Path), p) || vpHasDirPrefix(p, string(o.Path)))
+	}
+	wantLen := 1
+	for _, o := range old {
+		if string(o.Path) != p && !replaced(o) {
+			wantLen++
+		}
 	}
 	ok := len(idx.Entries) == wantLen
 	found := false
@@ -201,7 +209,7 @@ func VP_C06_Update() {
 		}
 	}
 	for _, o := range old {
-		if string(o.Path) == p {
+		if string(o.Path) == p || replaced(o) {
 			continue
 		}
 		kept := false
@@ -214,7 +222,7 @@ func VP_C06_Update() {
 			ok = false
 		}
 	}
-	zzvp.Assert(ok && found, "Update maps the named path to the new id and leaves every other entry unchanged")
+	zzvp.Assert(ok && found, "Update maps the named path to the new id, drops the entries it replaces in kind and leaves every other entry unchanged")
 	if was >= 0 && string(old[was].Hash) == string(h) {
 		zzvp.Assert(!changed, "re-adding an unchanged entry reports no change")
 	} else {
